@@ -151,6 +151,21 @@ Proof.
 Qed.
 Print Assumptions C11_sum_of_pairs_monotone.
 
+(* the check that ties the theorems above to the implementation inside real histories: for an
+   end-of-pass refinement call whose scoring dictionary was recorded, the DOCUMENTED score (model)
+   of the matrices before and after the call exists, agrees with the values measured with the
+   implementation's sum_of_pairs within 2^-30, and did not drop *)
+Theorem C11_definitional_check_spec :
+  forall (sonars : bool) (s : step) (before_int : imat) (tab : list ((num * num) * Q)),
+    sp_scorer s = Some tab -> definitional_okb sonars s before_int = true ->
+    exists x y,
+      sum_of_pairs (pair_scorer tab) sonars (-1 # 1) (sp_gw s) before_int = Some x /\
+      sum_of_pairs (pair_scorer tab) sonars (-1 # 1) (sp_gw s) (sp_int s) = Some y /\
+      closeb x (sp_before s) = true /\ closeb y (sp_after s) = true /\
+      (x - (1 # 1073741824) <= y)%Q.
+Proof. exact definitional_okb_spec. Qed.
+Print Assumptions C11_definitional_check_spec.
+
 (* ------------------------------------------------------------------ *)
 (* non-vacuity: a call whose candidate is worse (rolled back), one whose candidate is better
    (kept), an early exit *)
